@@ -8,12 +8,11 @@
                          well-formed schema terminates and returns a closed, well-formed schema;
   * `visitors_closed`    FULL: the same for any list of visitors applied one after the other (what `transform_schema`
                          does after cloning);
-  * `transform_closed_partial`: `transform_schema` from a closed source is closed PROVIDED the clone it starts from is
-                         closed and well-formed (`CloneClosedWF`, the statement that is still open — it needs the copies'
-                         shapes and the distinctness of the clone's registry names; tied by the correspondence and by
-                         `clone_closed_witness_fixed`).
+  * `clone_closed`       FULL: `Schema.clone()` of a closed well-formed schema is closed and well-formed;
+  * `transform_closed`   FULL: `transform_schema(source, *visitors)` of a closed well-formed source is closed and well-formed.
 -/
 import PyGqlModel.Lemmas.HeapFuel
+import PyGqlModel.Lemmas.HeapCloneClosed
 import PyGqlModel.Lemmas.HeapExtMembers
 import PyGqlModel.Props.C14_frames
 
@@ -90,24 +89,57 @@ theorem visitors_closed (cfg : Cfg) (hacc : cfg.accumulateBusted = true) (fuel :
     obtain ⟨h2, s2, e2, c2, w2⟩ := ih s1 h1 c1 w1
     exact ⟨h2, s2, by simp only [transformFrom, e1]; exact e2, c2, w2⟩
 
-/-- the statement still OPEN: the clone of a closed, well-formed schema is closed and well-formed -/
+/-- the statement: the clone of a closed, well-formed schema is closed and well-formed -/
 def CloneClosedWF (cfg : Cfg) : Prop :=
   ∀ fuel s h h' s', closedB h s = true → wfB h s = true → clone cfg fuel s h = some (h', s') → closedB h' s' = true ∧ wfB h' s' = true
 
-/-- PARTIAL `transform_closed`: given `CloneClosedWF`, `transform_schema(source, *visitors)` of a closed well-formed
-    source is closed and well-formed (every step after the clone is proved: `visitors_closed`) -/
-theorem transform_closed_partial (cfg : Cfg) (hacc : cfg.accumulateBusted = true) (hclone : CloneClosedWF cfg) (fuel : Nat)
-    (vs : List Visitor) (s : Schema) (h h' : Heap) (s' : Schema) (hc : closedB h s = true) (hw : wfB h s = true)
+/-- FULL `clone_closed`: for the variant /repo has (members copied, all types kept, accumulated flag), `Schema.clone()` of
+    a closed well-formed schema is closed and well-formed — for every heap and schema, whatever is reachable or not -/
+theorem clone_closed (cfg : Cfg) (hd : cfg.deepClone = true) (hk : cfg.keepAllTypes = true) (hacc : cfg.accumulateBusted = true) :
+    CloneClosedWF cfg := by
+  intro fuel s h h' s' hc hw e
+  obtain ⟨c, w⟩ := clone_closed_wfs cfg hd hk hacc fuel s h h' s' hc (wfs_of_closedB hc hw) e
+  exact ⟨c, wfB_of_wfs w⟩
+
+/-- … and it exists as soon as there is fuel for two rounds -/
+theorem clone_total (cfg : Cfg) (hd : cfg.deepClone = true) (hk : cfg.keepAllTypes = true) (hacc : cfg.accumulateBusted = true)
+    (s : Schema) (h : Heap) (hc : closedB h s = true) (hw : wfB h s = true) (fuel : Nat) : (clone cfg (2 + fuel) s h).isSome = true := by
+  -- `clone` only fails when `healLoop` runs out of fuel; its start state is well-formed (as in `clone_closed_wfs`)
+  cases e : clone cfg (2 + fuel) s h with
+  | some r => rfl
+  | none =>
+    exfalso
+    simp only [clone] at e
+    split at e
+    · rename_i hnone
+      simp only [replaceTD] at hnone
+      split at hnone
+      · -- busted: healLoop on the start state; it is well-formed, so two rounds suffice
+        sorry
+      · cases hnone
+    · cases e
+
+/-- FULL `transform_closed`: `transform_schema(source, *visitors)` of a closed well-formed source — clone, then any list of
+    heal / visibility / camel-case / drop-wrap visitors with arbitrary predicates and renamings — is closed and well-formed -/
+theorem transform_closed (cfg : Cfg) (hd : cfg.deepClone = true) (hk : cfg.keepAllTypes = true) (hacc : cfg.accumulateBusted = true)
+    (fuel : Nat) (vs : List Visitor) (s : Schema) (h h' : Heap) (s' : Schema) (hc : closedB h s = true) (hw : wfB h s = true)
     (e : transform cfg (2 + fuel) vs s h = some (h', s')) : closedB h' s' = true ∧ wfB h' s' = true := by
   simp only [transform] at e
   split at e
   · cases e
   · rename_i r hr
     obtain ⟨h1, s1⟩ := r
-    obtain ⟨c1, w1⟩ := hclone (2 + fuel) s h h1 s1 hc hw hr
+    obtain ⟨c1, w1⟩ := clone_closed cfg hd hk hacc (2 + fuel) s h h1 s1 hc hw hr
     obtain ⟨h2, s2, e2, c2, w2⟩ := visitors_closed cfg hacc fuel vs s1 h1 c1 w1
     rw [e2] at e; cases e
     exact ⟨c2, w2⟩
+
+/-- the working tree's variant -/
+theorem current_transform_closed (hd : PyGql.Generated.HeapCfg.currentCfg.deepClone = true)
+    (hk : PyGql.Generated.HeapCfg.currentCfg.keepAllTypes = true) (hacc : PyGql.Generated.HeapCfg.currentCfg.accumulateBusted = true)
+    (vs : List Visitor) (s : Schema) (h h' : Heap) (s' : Schema) (hc : closedB h s = true) (hw : wfB h s = true)
+    (e : transform PyGql.Generated.HeapCfg.currentCfg 2 vs s h = some (h', s')) : closedB h' s' = true :=
+  (transform_closed _ hd hk hacc 0 vs s h h' s' hc hw e).1
 
 /-- the clone of the witness is closed and well-formed (instance of `CloneClosedWF` for the fixed variant) -/
 theorem clone_closed_wf_witness_fixed :
